@@ -2,6 +2,7 @@
    Contract: a call asking for n >= 1 bytes returns k bytes with 1 <= k <= min(n, available), k chosen by the solver
    (chunk boundaries are symbolic), copies exactly those k next stream bytes, or returns 0 at stream end (peer closed).
    -DVF_WHOLE: every request is delivered in one chunk (structured defect-exposing harnesses only; chunking is covered elsewhere).
+   -DVF_SPLIT2: at most three chunks per request (two arbitrary split points).
    -DVF_SPLIT1: every sockRead request is delivered in at most two chunks (one arbitrary split point per request).
    The copy is a constant-trip loop of guarded byte stores (no symbolic-length memcpy). EAGAIN/negative returns are
    outside the model (stated in the claim). */
@@ -12,7 +13,7 @@
 #define VF_CHUNK_MAX 16            /* largest single request of the code under test within the harness bounds */
 #endif
 static uint8_t vf_stream[STREAM_MAX]; static uint32_t vf_stream_len, vf_stream_pos, vf_recv_calls;
-static uint8_t vf_fresh = 1; static uint32_t vf_req_end;
+static uint8_t vf_fresh = 1; static uint32_t vf_req_end; static uint8_t vf_nchunk;
 #ifndef VF_MAXCALLS
 #define VF_MAXCALLS 48
 #endif
@@ -38,6 +39,11 @@ uint32_t x__ZN4Poco3Net12StreamSocket12receiveBytesEPvii(struct S_class_2ePoco_3
   if (!vf_fresh) k = lim;                                     /* second chunk of a request: everything that is left */
   vf_req_end = req_end;
   vf_fresh = (k == n);
+#endif
+#ifdef VF_SPLIT2
+  /* at most three chunks per request (two arbitrary split points): the third call of a request returns everything that is left */
+  if (vf_nchunk >= 2) k = lim;
+  vf_nchunk = (k == n) ? 0 : vf_nchunk + 1;
 #endif
   for (uint32_t i = 0; i < VF_CHUNK_MAX && i < n; i++)   if (i < k) buf[i] = vf_stream[vf_stream_pos + i];   /* (i < n folds the loop for constant 1-byte requests) */
 #ifndef VF_NO_CHUNKREC
